@@ -69,6 +69,45 @@ Proof.
 Qed.
 
 (* ------------------------------------------------------------------------------------------ *)
+(* symbols and characters in their own right (after the repairs C03-3 ... C03-13)                *)
+(* ------------------------------------------------------------------------------------------ *)
+(* every ASCII name except t / T, under every print case, flat or pretty: the printed symbol reads back as a
+   symbol equal to it *)
+Theorem symbol_read_print c (name : list byte) : readable_cfg c = true -> forallb (fun b => b <? 128) name = true -> is_t name = false ->
+  exists y, read_all (print c (OSym name)) = Some [y] /\ obj_equal (OSym name) y = true /\ type_of y = TSymbol.
+Proof.
+  intros Hc Ha Ht. assert (Hd : in_domain c (OSym name) = true).
+  { unfold in_domain. rewrite Hc. cbn [andb dom atom_ok]. unfold sym_ok. rewrite Ha, Ht. cbn [orb negb andb]. rewrite !andb_true_r.
+    apply forallb_forall. intros x Hx. rewrite forallb_forall in Ha. specialize (Ha x Hx). lia. }
+  destruct (read_print c _ Hd) as (y & E & He & Hty). exists y. repeat split; [exact E|exact He|symmetry; exact Hty].
+Qed.
+(* with *print-case* nil every name whatsoever (any bytes, the empty name, names of any length) except t / T reads
+   back as the symbol with exactly that name: Symbol.needPipes asks for bars whenever the bare spelling would not
+   do, and the escapes between bars are undone by the reader *)
+Theorem symbol_exact c (name : list byte) : case_is_none c = true -> forallb (fun b => b <? 256) name = true -> is_t name = false ->
+  read_all (symbol_text c name) = Some [OSym name].
+Proof.
+  intros Hn H256 Ht. assert (Ec : forall s, case_name (p_case c) s = s).
+  { intros s. unfold case_is_none in Hn. destruct (p_case c); try discriminate Hn. reflexivity. }
+  destruct name as [|b r].
+  - exact (Reads_read_all _ _ (Reads_pipe [] (fun b (H : In b []) => match H with end))).
+  - unfold symbol_text. rewrite Ec. destruct (need_pipes (b :: r)) eqn:Enp.
+    + assert (HR : Reads ([124] ++ pesc (b :: r) ++ [124]) (TLeaf (LPipe (b :: r)))).
+      { apply Reads_pipe_body, pesc_body. apply Forall_forall. intros x Hx. rewrite forallb_forall in H256. specialize (H256 x Hx). lia. }
+      rewrite (Reads_read_all _ _ HR). reflexivity.
+    + destruct (bare_reads c (b :: r) H256 Enp Ht ltac:(discriminate)) as (y & HR & _). rewrite Ec in HR.
+      rewrite (Reads_read_all _ _ HR). cbn [obj_of_tree]. pose proof (need_pipes_false_resolves c (b :: r) Enp) as Hres.
+      rewrite Ec in Hres. rewrite Hres. reflexivity.
+Qed.
+(* every character (Unicode scalar, the NUL character included) reads back as itself *)
+Theorem character_read_print c r : readable_cfg c = true -> is_scalar r = true -> read_all (print c (OChr r)) = Some [OChr r].
+Proof.
+  intros Hc Hs. assert (Hd : in_domain c (OChr r) = true) by (unfold in_domain; rewrite Hc; exact Hs).
+  destruct (read_print c _ Hd) as (y & E & He & _). rewrite E. destruct y; try discriminate He.
+  cbn [obj_equal] in He. apply N.eqb_eq in He. subst. reflexivity.
+Qed.
+
+(* ------------------------------------------------------------------------------------------ *)
 (* white space                                                                                   *)
 (* ------------------------------------------------------------------------------------------ *)
 (* after any lexeme, any two non-empty runs of blanks / tabs / newlines leave the reader in the same parser state *)
